@@ -6,7 +6,7 @@ within the bound, recurse on each alternative.  One process per execution.
 """
 import os, json, shutil, subprocess
 from concurrent.futures import ThreadPoolExecutor
-from .common import VERIF, BUILD, NCPU, sh, CLEAN_ENV
+from .common import sh_watch, VERIF, BUILD, NCPU, sh, CLEAN_ENV
 from . import build, harness as H
 
 NATIVE = os.path.join(VERIF, 'native')
@@ -36,7 +36,7 @@ def tsan_env(w):
 
 
 class Execution:
-    __slots__ = ('prefix', 'points', 'rc', 'result', 'log', 'san', 'trace_tail', 'child_traces', 'timed_out', 'stdout')
+    __slots__ = ('prefix', 'points', 'rc', 'result', 'log', 'san', 'trace_tail', 'child_traces', 'timed_out', 'stdout', 'hang')
 
 
 def run_one(h_thr, w, cfgtext, n, k, mode, prefix, san='asan', fn=False, extra_args=(), timeout=60, env_extra=None):
@@ -59,25 +59,14 @@ def run_one(h_thr, w, cfgtext, n, k, mode, prefix, san='asan', fn=False, extra_a
     x.prefix = list(prefix)
     x.timed_out = False
     x.stdout = b''
-    # a schedule that exceeds the limit is re-run alone with 5x the limit before it is called a hang (the scheduler itself
-    # reports deadlock / livelock with exit codes 77 / 79; a timeout only ever means "slow", e.g. a loaded machine)
-    for attempt, lim in enumerate((timeout, timeout * 5)):
-        try:
-            r = sh([h_thr, ini, res, str(n), str(k), mode] + list(extra_args), env=env, cwd=w, timeout=lim)
-            x.rc = r.returncode
-            x.stdout = r.stdout
-            x.timed_out = False
-            break
-        except subprocess.TimeoutExpired:
-            x.rc = -999
-            x.timed_out = True
-            if attempt == 0:
-                for f in os.listdir(w):
-                    if f not in ('snoopy.ini',):
-                        try:
-                            os.unlink(os.path.join(w, f))
-                        except OSError:
-                            pass
+    # the scheduler reports deadlock / livelock among ITS threads itself (exit 77 / 79).  A run that goes on for seconds is examined
+    # (engine.common.sh_watch): a process tree in which nothing is runnable and nothing consumes CPU is hung (e.g. a forked child
+    # blocked in the kernel on something it inherited) and reported at once; a tree that is merely slow gets 5x the limit.
+    r, verdict = sh_watch([h_thr, ini, res, str(n), str(k), mode] + list(extra_args), timeout, env=env, cwd=w)
+    x.rc = r.returncode if verdict == 'done' else -999
+    x.stdout = r.stdout or b''
+    x.timed_out = verdict != 'done'
+    x.hang = verdict
     x.points = []
     x.trace_tail = []
     try:
